@@ -608,7 +608,10 @@ pub fn run(ctx: &mut Ctx) {
         let mut rng = Rng::new(idx ^ 0xCA5);
         for s in 0..=255u8 {
             let h = idx as u8;
-            for (dl, tail) in [(0usize, 0usize), (3, 0), (3, 1), (511, 0), (512, 0), (513, 0), (515, 1), (600, 0), (600, 2), (1024, 0), (70, 0), (65535, 0), (4242, 0), (4343, 0), (4343, 1)] {
+            for (dl, tail) in [(0usize, 0usize), (3, 0), (3, 1), (511, 0), (512, 0), (513, 0), (515, 1), (600, 0), (600, 2), (1024, 0), (70, 0), (65535, 0), (4242, 0), (4343, 0), (4343, 1),
+                // the natural signature sizes of the algorithms (Ed25519 64, Ed448 114, raw ECDSA r||s 64 / 96 / 132, RSA 128 .. 512,
+                // truncated MACs 32 / 48): for EVERY pair, since the statement makes no pair special
+                (64, 0), (64, 1), (114, 0), (114, 2), (32, 0), (48, 0), (96, 0), (128, 0), (132, 0), (256, 0), (384, 3)] {
             if dl == 65535 && s % 16 != 0 {
                 continue;
             }
